@@ -255,3 +255,29 @@ package escape
 //@   loop gEdge invariant fr1: preserved(all)
 //@   loop node invariant fr2: preserved(all)
 //@   loop node invariant leq: forall m *Node :: visited(node, m) ==> has(h.status, m) && g.status[m] <= h.status[m]
+
+// ---------------------------------------------------------------------------
+// C14: the transfer function of the escape analysis gives every instruction kind
+// that can make memory reachable from elsewhere its effect on the graph: allocations
+// create an edge to a fresh allocation node; a store / send of a pointer-like value
+// and a map update go through StoreField; a load of a pointer-like value goes
+// through LoadField; a go statement and a panic hand their operands to CallUnknown
+// (which leaks them); interface changes copy the pointees.
+//@ func functionAnalysisState.transferFunction
+//@   property C14
+//@   option havoc:*
+//@   requires ea != nil && g != nil && instruction != nil && ref(instruction) != 0
+//@   ensures alloc: istype(instruction, *ssa.Alloc) ==> called(AddEdge, g, _, _, _)
+//@   ensures make_map: istype(instruction, *ssa.MakeMap) ==> called(AddEdge, g, _, _, _)
+//@   ensures make_chan: istype(instruction, *ssa.MakeChan) ==> called(AddEdge, g, _, _, _)
+//@   ensures make_slice: istype(instruction, *ssa.MakeSlice) ==> called(AddEdge, g, _, _, _)
+//@   ensures store_pointer: istype(instruction, *ssa.Store) && lang.IsNillableType(instruction.(*ssa.Store).Val.Type()) ==> called(StoreField, g, _, _, _, _)
+//@   ensures load_pointer: istype(instruction, *ssa.UnOp) && instruction.(*ssa.UnOp).Op == token.MUL && lang.IsNillableType(instruction.(*ssa.UnOp).Type()) ==> called(LoadField, g, _, _, _, _, _)
+//@   ensures send_pointer: istype(instruction, *ssa.Send) && lang.IsNillableType(instruction.(*ssa.Send).X.Type()) ==> called(StoreField, g, _, _, _, _)
+//@   ensures go_leaks_operands: istype(instruction, *ssa.Go) ==> called(CallUnknown, g, _, _, _)
+//@   ensures panic_leaks_operand: istype(instruction, *ssa.Panic) ==> called(CallUnknown, g, _, _, _)
+//@   ensures map_update_value: istype(instruction, *ssa.MapUpdate) && IsEscapeTracked(instruction.(*ssa.MapUpdate).Value.Type()) ==> called(StoreField, g, _, _, _, _)
+//@   ensures map_update_key: istype(instruction, *ssa.MapUpdate) && IsEscapeTracked(instruction.(*ssa.MapUpdate).Key.Type()) ==> called(StoreField, g, _, _, _, _)
+//@   ensures map_lookup: istype(instruction, *ssa.Lookup) && IsEscapeTracked(instruction.(*ssa.Lookup).Type()) ==> called(LoadField, g, _, _, _, _, _)
+//@   ensures change_interface: istype(instruction, *ssa.ChangeInterface) ==> called(WeakAssign, g, _, _)
+//@   ensures slice_to_array_pointer: istype(instruction, *ssa.SliceToArrayPointer) ==> called(WeakAssign, g, _, _)
